@@ -33,7 +33,7 @@ class Constant(Family):
     doc = "'constant': value of the last sample at or before each new point; first value / `left` before the data"
 
     def configs(self, tier):
-        Ls = (2, 3, 4) if tier == "quick" else (2, 3, 4, 5)
+        Ls = (2, 3, 4, 5) if tier == "quick" else (2, 3, 4, 5, 6)
         Qs = (1, 2, 3) if tier == "quick" else (1, 2, 3, 4)
         return [{"L": L, "Q": Q, "left": lf} for L in Ls for Q in Qs for lf in (False, True)]
 
@@ -147,8 +147,8 @@ class WeaverGrid(Family):
     doc = "Weaver.interpolate(n): exactly n equally spaced points over the same range; explicit grid must share both end points"
 
     def configs(self, tier):
-        ns = (2, 3, 4, 5) if tier == "quick" else (2, 3, 4, 5, 6, 8)
-        return [{"L": L, "n": n, "method": m} for L in ((4,) if tier == "quick" else (4, 5, 6)) for n in ns
+        ns = (2, 3, 4, 5, 6) if tier == "quick" else (2, 3, 4, 5, 6, 8, 10)
+        return [{"L": L, "n": n, "method": m} for L in ((4, 5) if tier == "quick" else (4, 5, 6, 7)) for n in ns
                 for m in ("linear", "constant", "cubic", "spline")]
 
     def run(self, ctx, inst, L, n, method):
